@@ -2,9 +2,12 @@ package main
 
 // C08 — transport framing. Real code exercised: internal/mode (New, Detect, WriteMsg, ReadMsg),
 // internal/transport (NewTransport over a real loopback TCP connection, ReadMsg), and the
-// exact-count reader the TCP connection is built on (go-dry CancelableReader).
+// exact-count reader the TCP connection is built on (go-dry CancelableReader). c08.seq: operations of one
+// process one after another (foreign streams detected, then NEW connections of each mode announce and write):
+// what one connection received must not reach another.
 
 import (
+	"bytes"
 	"context"
 	"encoding/binary"
 	"fmt"
@@ -263,6 +266,7 @@ func c08Tcp(md string, splits string, items []string) string {
 	}
 	segs := splitAt(stream, parseSplits(splits, len(stream)))
 
+	wrongAnn := "" // set by the peer before done is closed
 	done := make(chan struct{})
 	go func() {
 		defer close(done)
@@ -272,9 +276,12 @@ func c08Tcp(md string, splits string, items []string) string {
 		}
 		tc := conn.(*net.TCPConn)
 		_ = tc.SetNoDelay(true)
-		// consume the client's announcement
+		// the client's announcement: what a new connection of this mode writes first
 		ann := make([]byte, len(specAnnounce(md)))
 		_, _ = io.ReadFull(tc, ann)
+		if !bytes.Equal(ann, specAnnounce(md)) {
+			wrongAnn = "announce=" + hexD(ann) + " "
+		}
 		for i, s := range segs {
 			if len(s) > 0 {
 				_, _ = tc.Write(s)
@@ -336,7 +343,9 @@ func c08Tcp(md string, splits string, items []string) string {
 			out[i] = fmt.Sprintf("msg:%d:%s", uint64(int64(msg.GetMsgID())), showBytes(msg.GetMsg()))
 		}
 	}
-	return fmt.Sprintf("items=%s end=%s", showList(out), end)
+	// wrongAnn is empty when the connection announced its mode as the format says (the line is then the one
+	// the model gives); otherwise it shows the bytes the peer received instead
+	return fmt.Sprintf("%sitems=%s end=%s", wrongAnn, showList(out), end)
 }
 
 // ---- deadlines: one direction's timing must not reach the other direction ---------------------------
@@ -563,8 +572,132 @@ func c08NoteBlocked(variant string, blocked bool) {
 
 var c08BlockedMu sync.Mutex
 
+// c08WriteTCP: what c08Write does, over the repository's own TCP connection: mode.New on transport.NewTCP
+// announces the mode and writes the messages; the result is the raw stream the peer received.
+func c08WriteTCP(md string, msgs [][]byte) ([]byte, string) {
+	type peerRes struct{ raw []byte }
+	peerDone := make(chan peerRes, 1)
+	go func() {
+		var res peerRes
+		defer func() { peerDone <- res }()
+		conn, err := c08Listener.Accept()
+		if err != nil {
+			return
+		}
+		defer conn.Close()
+		_ = conn.SetDeadline(time.Now().Add(60 * time.Second))
+		res.raw, _ = io.ReadAll(conn)
+	}()
+	ctx, cancel := context.WithCancel(context.Background())
+	defer cancel()
+	conn, err := transport.NewTCP(transport.TCPConnConfig{Ctx: ctx, Host: c08Listener.Addr().String(), Timeout: 10 * time.Second})
+	if err != nil {
+		return nil, "dial-error"
+	}
+	e := "-"
+	m, err := mode.New(variantOf(md), conn)
+	if err != nil {
+		e = "new:" + err.Error()
+	} else {
+		for _, msg := range msgs {
+			if err := m.WriteMsg(msg); err != nil {
+				if _, ok := err.(mode.ErrNotMultiple); ok {
+					e = "notmultiple"
+				} else {
+					e = "other"
+				}
+				break
+			}
+		}
+	}
+	conn.Close()
+	return (<-peerDone).raw, e
+}
+
+// c08.seq <step> <step> …: operations of ONE process one after another; what a connection does must not
+// depend on what other connections of the process did or received before it. Steps:
+//
+//	d:<segments>     a stream (comma-separated segments, as c08.read) through mode.Detect + ReadMsg
+//	w:<md>:<msgs>    a NEW connection of the mode (mode.New) writes the messages (as c08.write)
+//	t:<md>:<msgs>    the same over the repository's TCP connection type; the bytes the loopback peer received
+//
+// The results are joined with " ; "; each step is judged as the single operation it is.
+func c08SeqStep(t string) (op []string, ok bool) {
+	p := strings.Split(t, ":")
+	switch {
+	case len(p) == 2 && p[0] == "d":
+		return []string{"c08.read", p[1]}, c08TokListOK(p[1])
+	case len(p) == 3 && (p[0] == "w" || p[0] == "t") && (p[1] == "a" || p[1] == "i"):
+		return []string{"c08.write", p[1], p[2]}, c08TokListOK(p[2])
+	}
+	return nil, false
+}
+
+// c08TokListOK: a comma-separated list of byte-string tokens (hex, "-", z<n>, p<n>) as the line protocol defines.
+func c08TokListOK(s string) bool {
+	if s == "-" {
+		return true
+	}
+	for _, t := range strings.Split(s, ",") {
+		switch {
+		case t == "-":
+		case len(t) > 1 && (t[0] == 'z' || t[0] == 'p'):
+			for _, c := range t[1:] {
+				if c < '0' || c > '9' {
+					return false
+				}
+			}
+		default:
+			if len(t) == 0 || len(t)%2 != 0 {
+				return false
+			}
+			for _, c := range t {
+				if !(c >= '0' && c <= '9' || c >= 'a' && c <= 'f' || c >= 'A' && c <= 'F') {
+					return false
+				}
+			}
+		}
+	}
+	return true
+}
+
+func c08Seq(steps []string) string {
+	var ops [][]string
+	for _, t := range steps {
+		op, ok := c08SeqStep(t)
+		if !ok {
+			return "bad-op"
+		}
+		ops = append(ops, op)
+	}
+	var outs []string
+	for i, op := range ops {
+		var res string
+		func() {
+			defer func() {
+				if r := recover(); r != nil {
+					res = "panic:" + panicSite()
+				}
+			}()
+			if steps[i][0] == 't' {
+				b, e := c08WriteTCP(op[1], parseBytesList(op[2]))
+				res = fmt.Sprintf("bytes=%s err=%s", showBytes(b), e)
+			} else {
+				res = c08Exec(op)
+			}
+		}()
+		outs = append(outs, res)
+	}
+	return strings.Join(outs, " ; ")
+}
+
 func c08Exec(op []string) string {
 	switch op[0] {
+	case "c08.seq":
+		if len(op) < 2 {
+			return "bad-op"
+		}
+		return c08Seq(op[1:])
 	case "c08.write":
 		b, e := c08Write(op[1], parseBytesList(op[2]))
 		return fmt.Sprintf("bytes=%s err=%s", showBytes(b), e)
@@ -617,6 +750,28 @@ func c08Judge(op []string, out string) string {
 		if out != exp {
 			return "written bytes differ from the format: want " + clip(exp)
 		}
+	case "c08.read":
+		return c08JudgeRead(bytes.Join(parseBytesList(op[1]), nil), out)
+	case "c08.seq":
+		outs := strings.Split(out, " ; ")
+		if out == "bad-op" || len(outs) != len(op)-1 {
+			return ""
+		}
+		var whys []string
+		for i, t := range op[1:] {
+			sop, ok := c08SeqStep(t)
+			if !ok {
+				return ""
+			}
+			if why := c08Judge(sop, outs[i]); why != "" && len(whys) < 3 {
+				before := "the first step of the sequence"
+				if i > 0 {
+					before = "after " + clip(strings.Join(op[1:i+1], " ")) + " in the same process"
+				}
+				whys = append(whys, fmt.Sprintf("step %d of %d, %s (%s): %s; got %s", i+1, len(outs), t, before, why, clip(outs[i])))
+			}
+		}
+		return strings.Join(whys, " || ")
 	case "c08.rt", "c08.det":
 		md, msgs := op[1], parseBytesList(op[3])
 		var shown []string
@@ -679,6 +834,85 @@ func c08Judge(op []string, out string) string {
 		exp := fmt.Sprintf("items=%s end=eof", showList(shown))
 		if out != exp {
 			return "items delivered over TCP differ from the items sent: want " + clip(exp)
+		}
+	}
+	return ""
+}
+
+// c08JudgeRead: a received stream by the format's own rules. The mode is recognised from the announcement —
+// 0xef: Abridged, 0xee 0xee 0xee 0xee: Intermediate, anything else (a prefix of those, other bytes after a
+// first 0xee, another first byte) is not an announcement of these modes; then every complete frame is
+// delivered as the message it carries, in order, and the end of the stream is an end, not a message.
+func c08JudgeRead(s []byte, out string) string {
+	md, rest := "", []byte(nil)
+	switch {
+	case len(s) >= 1 && s[0] == 0xef:
+		md, rest = "a", s[1:]
+	case len(s) >= 4 && bytes.Equal(s[:4], []byte{0xee, 0xee, 0xee, 0xee}):
+		md, rest = "i", s[4:]
+	}
+	if md == "" {
+		if !strings.HasPrefix(out, "mode=err:") {
+			head := s
+			if len(head) > 4 {
+				head = head[:4]
+			}
+			return "a stream that does not begin with a mode's announcement (it begins " + hexD(head) + ") was recognised as a mode"
+		}
+		return ""
+	}
+	// complete frames of the stream
+	var shown []string
+	state := "boundary"
+	for len(rest) > 0 {
+		var n, h int
+		if md == "a" {
+			switch b := rest[0]; {
+			case b < 0x7f:
+				n, h = 4*int(b), 1
+			case b == 0x7f:
+				if len(rest) < 4 {
+					state = "truncated"
+				} else {
+					n, h = 4*(int(rest[1])|int(rest[2])<<8|int(rest[3])<<16), 4
+				}
+			default:
+				state = "undefined" // a first length byte above 0x7f: the format described here does not define it
+			}
+		} else {
+			if len(rest) < 4 {
+				state = "truncated"
+			} else {
+				n, h = int(binary.LittleEndian.Uint32(rest)), 4
+			}
+		}
+		if state != "boundary" {
+			break
+		}
+		if len(rest)-h < n {
+			state = "truncated"
+			break
+		}
+		shown = append(shown, showBytes(rest[h:h+n]))
+		rest = rest[h+n:]
+	}
+	pre := fmt.Sprintf("mode=%s msgs=", md)
+	switch state {
+	case "boundary":
+		if exp := pre + showList(shown) + " end=eof"; out != exp {
+			return "a stream of an announcement and whole frames is not delivered as its messages and an end of stream: want " + clip(exp)
+		}
+	case "truncated":
+		i := strings.LastIndex(out, " end=")
+		if i < 0 || out[:i] != pre+showList(shown) {
+			return "a stream cut inside a frame: the whole frames before the cut are not what is delivered (the cut frame must end the stream, not become a message): want " + clip(pre+showList(shown)) + " end=<an end of stream>"
+		}
+	default:
+		if !strings.HasPrefix(out, pre) {
+			return "the mode is not recognised from the announcement: want " + pre + "…"
+		}
+		if len(shown) > 0 && !strings.HasPrefix(out, pre+showList(shown)) {
+			return "the whole frames at the start of the stream are not delivered as their messages: want " + clip(pre+showList(shown)) + "…"
 		}
 	}
 	return ""
@@ -1068,6 +1302,151 @@ func c08Gen(g *G) {
 	for _, md := range []string{"a", "i"} {
 		g.Emit(fmt.Sprintf("c08.tcp %s - c:-404", md), "tcp-code", "mode="+md)
 		g.Emit(fmt.Sprintf("c08.tcp %s each c:-404 m:5:01020304 c:-429", md), "tcp-code", "mode="+md)
+	}
+	c08GenHistory(g)
+}
+
+// c08GenHistory: (f) what one connection of the process received must not reach another. Streams whose first
+// bytes share a prefix with an announcement without being one (0xee then other bytes, a cut announcement,
+// 0xdd…, other first bytes; 0xef followed by bytes of the other announcement), alone (c08.read) and — c08.seq —
+// before, between and after NEW connections of both modes writing their announcement and frames (mode.New on
+// a recording connection and on the repository's TCP connection over loopback) and well-formed streams being
+// detected and read: every step must come out as it does on its own.
+func c08GenHistory(g *G) {
+	r := g.R
+	small := true // the fixed shapes: streams short enough to be printed byte by byte
+	msgsFor := func(md string) string {
+		var toks []string
+		for j := 0; j < 1+r.Intn(3); j++ {
+			l := 4 * r.Pick(0, 1, 2, 3, 16, 126, 127, 128)
+			if md == "i" && r.Intn(3) == 0 {
+				l = 1 + r.Intn(70)
+			}
+			if small {
+				l = 4 * r.Intn(3)
+				if md == "i" && r.Intn(3) == 0 {
+					l = 1 + r.Intn(9)
+				}
+			}
+			if l == 0 {
+				toks = append(toks, "-")
+			} else if l > 64 {
+				toks = append(toks, fmt.Sprintf("p%d", l))
+			} else {
+				toks = append(toks, hexD(r.Bytes(l)))
+			}
+		}
+		return showList(toks)
+	}
+	frames := func(md string) []byte { // a short well-formed body of a stream
+		var b []byte
+		for j := 0; j < r.Intn(3); j++ {
+			b = append(b, specFrame(md, r.Bytes(4*r.Intn(5)))...)
+		}
+		return b
+	}
+	segs := func(stream []byte) string { // the stream as 1..3 segments, or one byte at a time when short
+		if len(stream) == 0 {
+			return "-"
+		}
+		if len(stream) <= 12 && r.Intn(4) == 0 {
+			var t []string
+			for _, b := range stream {
+				t = append(t, hexD([]byte{b}))
+			}
+			return strings.Join(t, ",")
+		}
+		var cuts []int
+		for k := r.Intn(3); k > 0 && len(stream) > 1; k-- {
+			cuts = append(cuts, 1+r.Intn(min(len(stream)-1, 5)))
+		}
+		sortInts(cuts)
+		var t []string
+		for _, sg := range splitAt(stream, cuts) {
+			t = append(t, hexD(sg))
+		}
+		return strings.Join(t, ",")
+	}
+	nearMiss := func() []byte {
+		var h []byte
+		switch r.Intn(10) {
+		case 0, 1, 2: // 0xee, then three bytes that are not all 0xee
+			h = []byte{0xee, 0xee, 0xee, 0xee}
+			for k := 1 + r.Intn(3); k > 0; k-- {
+				h[1+r.Intn(3)] = byte(r.Pick(0x00, 0xef, 0xdd, 0xed, 0x01, 0xff, 0x7f, 0x0e, r.Intn(0xee)))
+			}
+		case 3:
+			h = append([]byte{0xee}, r.Bytes(3)...)
+			if h[1] == 0xee && h[2] == 0xee && h[3] == 0xee {
+				h[3] = 0
+			}
+		case 4: // an announcement cut short
+			return []byte{0xee, 0xee, 0xee}[:r.Intn(4)]
+		case 5: // the padded-intermediate announcement: not a mode of this client
+			h = []byte{0xdd, 0xdd, 0xdd, 0xdd}[:r.Pick(1, 4)]
+		case 6:
+			h = []byte{0xee, 0xef, 0xef, 0xef}
+		case 7:
+			h = []byte{byte(r.Pick(0xed, 0xf0, 0x00, 0x7f, 0xfe, 0xe0, 0x0e)), 0xee, 0xee, 0xee}
+		default:
+			h = append([]byte{byte(r.Pick(0xee, 0xee, 0xdd, 0x00))}, r.Bytes(3)...)
+			if h[0] == 0xee && h[1] == 0xee && h[2] == 0xee && h[3] == 0xee {
+				h[1] = 1
+			}
+		}
+		if r.Intn(2) == 0 {
+			h = append(h, frames("i")...)
+		}
+		return h
+	}
+	valid := func() []byte {
+		md := []string{"a", "i"}[r.Intn(2)]
+		if r.Intn(6) == 0 { // 0xef followed by bytes of the other announcement: Abridged, whatever follows
+			return []byte{0xef, 0xee, 0xee, 0xee}[:r.Pick(1, 2, 4)]
+		}
+		return append(specAnnounce(md), frames(md)...)
+	}
+	// sequences
+	emit := func(steps []string, tags ...string) {
+		g.Emit("c08.seq "+strings.Join(steps, " "), append(tags, "seq")...)
+	}
+	w := func(md string) string { return "w:" + md + ":" + msgsFor(md) }
+	t := func(md string) string { return "t:" + md + ":" + msgsFor(md) }
+	d := func(stream []byte) string { return "d:" + segs(stream) }
+	for i := 0; i < g.N(16, 120); i++ {
+		nm := nearMiss()
+		emit([]string{w("i"), w("a"), d(nm), w("i"), w("a")}, "seq-new-connection-after-foreign-stream")
+		emit([]string{d(nm), t("i"), t("a")}, "seq-new-connection-after-foreign-stream", "seq-loopback")
+		emit([]string{d(nm), d(append(specAnnounce("i"), frames("i")...)), d(append(specAnnounce("a"), frames("a")...))}, "seq-detect-after-foreign-stream")
+		emit([]string{t("i"), d(nm), d(nearMiss()), w("i"), d(valid()), t("i"), w("a")}, "seq-new-connection-after-foreign-stream", "seq-loopback")
+	}
+	small = false
+	for i := 0; i < g.N(60, 1200); i++ {
+		var steps []string
+		for k := 2 + r.Intn(7); k > 0; k-- {
+			switch c := r.Intn(10); {
+			case c < 3:
+				steps = append(steps, d(nearMiss()))
+			case c < 5:
+				steps = append(steps, d(valid()))
+			case c < 8:
+				steps = append(steps, w([]string{"a", "i", "i"}[r.Intn(3)]))
+			default:
+				steps = append(steps, t([]string{"a", "i", "i"}[r.Intn(3)]))
+			}
+		}
+		emit(steps, "seq-random")
+	}
+	// the same kinds of streams alone: the fixed table, then random ones
+	for _, h := range []string{"ee000000", "eeeeee00", "eeee00ee", "ee00eeee", "eeefefef", "eedddddd", "ee0000", "ee00", "eeeeeeed",
+		"ee00000004000000aabbccdd", "eeeeee0000000000", "dddddddd", "dddddddd04000000aabbccdd", "dd", "ed", "f0eeeeee", "efeeeeee", "efef", "efdddddd"} {
+		g.Emit("c08.read "+h, "read-near-announcement")
+		if len(h) >= 4 {
+			g.Emit("c08.read "+h[:2]+","+h[2:], "read-near-announcement")
+		}
+	}
+	for i := 0; i < g.N(40, 600); i++ {
+		g.Emit("c08.read "+segs(nearMiss()), "read-near-announcement")
 	}
 }
 
